@@ -237,6 +237,12 @@ PROPS["C01"]["level_text"] += (
 PROPS["C03"]["level_text"] += (
     "; C03_encoder_is_blocks_to_bytes_then_the_source_header_and_tail: the rest of from_code_data (consts, additional line, from_flags_data, line shift, "
     "from_line_mapping, nlocals, CodeType under both signatures) is translated and tied as well")
+PROPS["C03"]["level_text"] += (
+    "; FromArgs.to_tuple too (C03_to_tuple_is_the_source: the key-set test against range(len) and the values of the items sorted by key equal the "
+    "model's walk over 0..len-1 for every table with distinct keys; C03_encoder_tables_keep_distinct_keys: every table the encoder builds has them)")
+PROPS["C03"]["level_text"] += (
+    "; the prologue of blocks_to_bytes as well (C03_encoder_prologue_is_the_source: tables, varnames seeded with the parameter names, docstring pinned "
+    "at slot 0 whenever it is not None)")
 PROPS["C04"]["level_text"] += (
     "; the four functions of _args.py are tied to the source by proof for ALL inputs (C04_args_functions_are_the_source: Gen/SrcArgs.v, "
     "re-translated on every run, equals Model/Args.v)")
